@@ -228,9 +228,11 @@ def r5_4(ctx: Ctx) -> RuleResult:
                 rr.ok(fn.loc(eq_calls[0]), f"test: values compared by {callee_name(eq_calls[0])}()")
     if n == 0:
         raise AnalysisError("R5.4: the `test` operation performs no value comparison")
+    from .c02 import check_equality_kind_table
     from .c02 import check_equality_routines
 
     check_equality_routines(ctx, rr)
+    check_equality_kind_table(ctx, rr)
     return rr
 
 
